@@ -324,3 +324,53 @@ def config_errors(workdir):
         except Exception as e:
             bad.append({"case": name, "reason": "wrong-exception:" + type(e).__name__})
     return {"cases": len(cases), "bad": bad}
+
+
+# ------------------------------------------------------------------ size / count dimension
+from harness import sizes as _sizes  # noqa: E402
+
+_sizes.size_cases(70000, extra=_sizes.ENV_SIZES)
+
+
+def big_entry(which, k, form, pat):
+    """(0) one argument of n characters, (1) n arguments, (2) a command of n characters, (3) an environment value of
+    n characters, (4) n environment variables, (5) n OTHER servers in the configuration before the target;
+    n = c-1, c, c+1 for the integer constants c of the source (counts limited to 1100)"""
+    n = _sizes.pick(_sizes.size_cases(70000 if form in (0, 2, 3) else 1100, extra=_sizes.ENV_SIZES if form in (0, 2, 3) else ()), k)
+    command, args, envsel, envval = "srv-cmd", ["--flag", "value"], 2, "v"
+    if form == 0:
+        args = ["--data", _sizes.long_text(n, pat), "tail"]
+    elif form == 1:
+        args = ["a%d" % i for i in range(n)]
+    elif form == 2:
+        command = "/opt/" + _sizes.long_text(n, 0) + "c"
+    elif form == 3:
+        envval = _sizes.long_text(n, pat)
+    if form in (4, 5):
+        entry = server_entry(command, args, envsel, envval, 0, False)
+        if form == 4:
+            entry["env"] = {"K%04d" % i: "v%d" % i for i in range(n)}
+        servers = {}
+        if form == 5:
+            for i in range(n):
+                servers["other-%04d" % i] = {"command": "other-%d" % i, "args": ["--n", str(i)]}
+        servers["target"] = entry
+        _install({"mcpServers": servers})
+        params, timeout = drive(CONFIG.load_config("/cfg.json", "target"))
+        client = STDIO.StdioClient(params)
+        drive(client.__aenter__())
+        if len(L.calls) != 1:
+            return "not-exactly-one-process"
+        argv, env = L.calls[0]
+        if argv != [command] + args:
+            return "launched-wrong-arguments"
+        if form == 4:
+            if n and env != entry["env"]:
+                return "launched-with-wrong-environment"
+            return "ok"
+        return _check_launch(L.calls[0], command, args, envsel, envval)
+    if which == 0:
+        return loader(command, args, envsel, envval, 0, False, True)
+    if which == 1:
+        return cli_test_server(command, args, envsel, envval, 0)
+    return runner(command, args, envsel, envval, 1)
